@@ -41,6 +41,8 @@ structure State where
   tprev : Nat := 0
   -- ghost: responses delivered to the application: (ctx, 32-bit id carried by the response, 32-bit id of the context's survey when Recv began)
   delivered : List (Nat × Nat × Nat) := []
+  -- ghost: the survey (by number) each delivered response was delivered for
+  deliveredFor : List Nat := []
 deriving Repr, BEq
 
 def init : State := {}
@@ -98,7 +100,7 @@ def core (s : State) (now : Nat) (op : List String) : List (State × List Ev × 
       let m : Msg := (body.take 4, body.drop 4)
       match s.parked.find? (fun p => p.2.2 == v.id) with
       | some (call, ctx, sid) =>
-        [({ s with parked := s.parked.filter (fun p => p.1 != call), delivered := s.delivered ++ [(ctx, beDec m.1, enc sid)] }, [], [(call, Ev.retMsg call m.1 m.2)])]
+        [({ s with parked := s.parked.filter (fun p => p.1 != call), delivered := s.delivered ++ [(ctx, beDec m.1, enc sid)], deliveredFor := s.deliveredFor ++ [sid] }, [], [(call, Ev.retMsg call m.1 m.2)])]
       | none =>
         if v.q.length < v.cap then
           [({ s with surveys := s.surveys.map (fun w => if w.id == v.id then { w with q := w.q ++ [m] } else w) }, [], [])]
@@ -134,7 +136,7 @@ def core (s : State) (now : Nat) (op : List String) : List (State × List Ev × 
           match v.q with
           | m :: q =>
             [({ s with surveys := s.surveys.map (fun w => if w.id == sid then { w with q := q } else w),
-                        delivered := s.delivered ++ [(c.id, beDec m.1, enc sid)] }, [], [(call, Ev.retMsg call m.1 m.2)])]
+                        delivered := s.delivered ++ [(c.id, beDec m.1, enc sid)], deliveredFor := s.deliveredFor ++ [sid] }, [], [(call, Ev.retMsg call m.1 m.2)])]
           | [] => [({ s with parked := s.parked ++ [(call, c.id, sid)] }, [], [])]
   | ["setopt", ctx, "SURVEY-TIME", ms] => [(setCtx s (natOf ctx) (fun c => { c with survTime := natOf ms }), [Ev.res "ok"], [])]
   | ["setopt", ctx, "READQ-LEN", n] => [(setCtx s (natOf ctx) (fun c => { c with recvQLen := natOf n }), [Ev.res "ok"], [])]
